@@ -268,6 +268,13 @@ def gen_iterc(tier, r):
             ops.append(("after-error", f"new {s} {UMAX}"))
             for o in ["next"] * 4 + tail:
                 ops.append(("after-error", o))
+    # skipto / jump_to as the FIRST operation on a primesieve_init'ed iterator (memory == NULL) and after free_iterator
+    for p in [2, 3, 7, 11, 97, 719, 1009, 10**6 + 3, 2**32 + 15, 4, 100]:
+        for kind in ["jump", "skipto"]:
+            ops += [("fresh-first-op", "fresh"), ("fresh-first-op", f"{kind} {p} {UMAX}"), ("fresh-first-op", "next"), ("fresh-first-op", "next"),
+                    ("fresh-first-op", "fresh"), ("fresh-first-op", f"{kind} {p} 0"), ("fresh-first-op", "prev"), ("fresh-first-op", "prev")]
+    ops += [("fresh-first-op", "fresh"), ("fresh-first-op", "next"), ("fresh-first-op", "fresh"), ("fresh-first-op", "prev"), ("fresh-first-op", "fresh"),
+            ("fresh-first-op", "clear"), ("fresh-first-op", "next")]
     # skipto is exclusive, jump_to inclusive, at primes and composites
     for p in [2, 3, 5, 7, 719, 721, 997, 1000, 10**6 + 3, 2**32 - 5, 2**32 + 15]:
         for kind in ["jump", "skipto"]:
